@@ -39,17 +39,19 @@ import (
 // one-line predicate method) are taken as true, because without a timer none of
 // the events exists.  It reports, per root function (one no other function of
 // the package calls), a bare receive that is reachable in state D, with the
-// call chain.  Every other condition is treated as free, so a re-arm that is
-// made conditional on anything else is reported.
+// call chain.  Boolean fields of the struct that owns the timer are part of the
+// state (assignments of constants set them, branches on them filter; their
+// value on entry is unknown), so a design that remembers "the timer is parked"
+// in a field and guards the drain with it is followed.  Every other condition is
+// treated as free.
 //
 // A necessary condition of "timer expiries … never produce … a deadlock": a
 // shard loop blocked in that receive never serves its queue again and never
 // sees the shutdown channel, so Consume calls and Shutdown hang.
 
-const (
-	tsA uint8 = 1
-	tsD uint8 = 2
-)
+// A state is a pair (timer state, valuation of the tracked boolean flags):
+// index = ts + 2*valuation with ts 0 = A, 1 = D.  Sets of states are bitmasks.
+type tsSet = uint64
 
 type tsErr struct {
 	pos   token.Pos
@@ -58,7 +60,7 @@ type tsErr struct {
 }
 
 type tsSum struct {
-	out  uint8
+	out  tsSet
 	err  *tsErr
 	busy bool
 	done bool
@@ -68,10 +70,89 @@ type tsAnalysis struct {
 	p      *core.Prog
 	fld    *types.Var // the *time.Timer field
 	pkg    *ssa.Package
-	sums   map[*ssa.Function]*[3]tsSum // indexed by entry state (1=A, 2=D)
+	flags  []*types.Var // boolean fields of package structs that are only ever assigned constants
+	sums   map[*ssa.Function][]tsSum // indexed by entry state
 	events map[*ssa.Function]bool
 	recur  bool
 	nilFn  map[*ssa.Function]int // +1: returns fld != nil, -1: returns fld == nil, 0: not a predicate
+}
+
+func (a *tsAnalysis) nStates() int { return 2 << uint(len(a.flags)) }
+
+// mapTS applies f to the timer component of every state of the set.
+func (a *tsAnalysis) mapTS(set tsSet, f func(ts int) int) tsSet {
+	var out tsSet
+	for s := 0; s < a.nStates(); s++ {
+		if set&(1<<uint(s)) != 0 {
+			out |= 1 << uint(f(s&1)|(s&^1))
+		}
+	}
+	return out
+}
+
+func (a *tsAnalysis) anyD(set tsSet) bool {
+	for s := 1; s < a.nStates(); s += 2 {
+		if set&(1<<uint(s)) != 0 {
+			return true
+		}
+	}
+	return false
+}
+
+// setFlag / filterFlag act on flag k (val<0: unknown → both values).
+func (a *tsAnalysis) setFlag(set tsSet, k int, val int) tsSet {
+	var out tsSet
+	bit := 2 << uint(k)
+	for s := 0; s < a.nStates(); s++ {
+		if set&(1<<uint(s)) == 0 {
+			continue
+		}
+		if val != 0 {
+			out |= 1 << uint(s|bit)
+		}
+		if val <= 0 {
+			out |= 1 << uint(s&^bit)
+		}
+	}
+	return out
+}
+
+func (a *tsAnalysis) filterFlag(set tsSet, k int, val bool) tsSet {
+	var out tsSet
+	bit := 2 << uint(k)
+	for s := 0; s < a.nStates(); s++ {
+		if set&(1<<uint(s)) != 0 && ((s&bit != 0) == val) {
+			out |= 1 << uint(s)
+		}
+	}
+	return out
+}
+
+func (a *tsAnalysis) flagIndex(v *types.Var) int {
+	for k, f := range a.flags {
+		if f == v {
+			return k
+		}
+	}
+	return -1
+}
+
+// flagTest: v is a read of tracked flag k (pol=+1) or its negation (pol=-1).
+func (a *tsAnalysis) flagTest(v ssa.Value) (k int, pol int) {
+	pol = 1
+	for {
+		u, ok := v.(*ssa.UnOp)
+		if !ok || u.Op != token.NOT {
+			break
+		}
+		v, pol = u.X, -pol
+	}
+	if fa := core.LoadedField(v); fa != nil {
+		if k := a.flagIndex(core.FieldVar(fa)); k >= 0 {
+			return k, pol
+		}
+	}
+	return -1, 0
 }
 
 // isTimerLoad: v is a load of the timer field.
@@ -196,11 +277,11 @@ func (a *tsAnalysis) callee(ci ssa.CallInstruction) *ssa.Function {
 	return g
 }
 
-// summary of fn entered in the single state `in`.
-func (a *tsAnalysis) summary(fn *ssa.Function, in uint8) tsSum {
+// summary of fn entered in the single state `in` (a state index).
+func (a *tsAnalysis) summary(fn *ssa.Function, in int) tsSum {
 	slot := a.sums[fn]
 	if slot == nil {
-		slot = &[3]tsSum{}
+		slot = make([]tsSum, a.nStates())
 		a.sums[fn] = slot
 	}
 	s := &slot[in]
@@ -209,9 +290,11 @@ func (a *tsAnalysis) summary(fn *ssa.Function, in uint8) tsSum {
 	}
 	if s.busy {
 		a.recur = true
-		return tsSum{out: in}
+		return tsSum{out: 1 << uint(in)}
 	}
 	s.busy = true
+	toD := func(int) int { return 1 }
+	toA := func(int) int { return 0 }
 	// edges on which the timer's channel was received from (select arms)
 	consume := map[core.Edge]bool{}
 	core.EachInstr(fn, func(i ssa.Instruction) {
@@ -230,10 +313,10 @@ func (a *tsAnalysis) summary(fn *ssa.Function, in uint8) tsSum {
 			}
 		}
 	})
-	blockIn := make([]uint8, len(fn.Blocks))
-	blockIn[0] = in
+	blockIn := make([]tsSet, len(fn.Blocks))
+	blockIn[0] = 1 << uint(in)
 	work := []*ssa.BasicBlock{fn.Blocks[0]}
-	var out uint8
+	var out tsSet
 	var firstErr *tsErr
 	setErr := func(e *tsErr) {
 		if firstErr == nil {
@@ -244,24 +327,36 @@ func (a *tsAnalysis) summary(fn *ssa.Function, in uint8) tsSum {
 		b := work[len(work)-1]
 		work = work[:len(work)-1]
 		st := blockIn[b.Index]
-		stopEdge := map[bool]bool{} // If on a Stop() result seen in this block: polarity map
 		var stopCond ssa.Value
+		stopTrue := false // Succs[0] is taken when Stop() == stopTrue
 		for _, ins := range b.Instrs {
 			switch x := ins.(type) {
 			case *ssa.Store:
-				if fa, ok := x.Addr.(*ssa.FieldAddr); ok && core.FieldVar(fa) == a.fld && !core.IsNilConst(x.Val) {
-					st = tsA
+				if fa, ok := x.Addr.(*ssa.FieldAddr); ok {
+					if core.FieldVar(fa) == a.fld && !core.IsNilConst(x.Val) {
+						st = a.mapTS(st, toA)
+					} else if k := a.flagIndex(core.FieldVar(fa)); k >= 0 {
+						if bv, ok := core.ConstBool(x.Val); ok {
+							v := 0
+							if bv {
+								v = 1
+							}
+							st = a.setFlag(st, k, v)
+						} else {
+							st = a.setFlag(st, k, -1)
+						}
+					}
 				}
 			case *ssa.UnOp:
 				if x.Op == token.ARROW && a.isTimerChan(x.X) {
-					if st&tsD != 0 {
+					if a.anyD(st) {
 						setErr(&tsErr{pos: x.Pos(), fn: fn})
 					}
-					st = tsD
+					st = a.mapTS(st, toD)
 				}
 			case *ssa.Select:
 				if consume[core.Edge{From: b, To: nil}] {
-					st |= tsD
+					st |= a.mapTS(st, toD)
 				}
 			case *ssa.Return:
 				out |= st
@@ -274,7 +369,7 @@ func (a *tsAnalysis) summary(fn *ssa.Function, in uint8) tsSum {
 				}
 				switch a.timerMethod(x) {
 				case "Reset":
-					st = tsA
+					st = a.mapTS(st, toA)
 					continue
 				case "Stop":
 					v, _ := x.(ssa.Value)
@@ -291,13 +386,12 @@ func (a *tsAnalysis) summary(fn *ssa.Function, in uint8) tsSum {
 								c, neg = u.X, !neg
 							}
 							if c == v {
-								tested, stopCond = true, iff.Cond
-								stopEdge[!neg] = true // Succs[0] taken when Stop()==!neg
+								tested, stopCond, stopTrue = true, iff.Cond, !neg
 							}
 						}
 					}
 					if !tested {
-						st |= tsD
+						st |= a.mapTS(st, toD)
 					}
 					continue
 				}
@@ -305,12 +399,12 @@ func (a *tsAnalysis) summary(fn *ssa.Function, in uint8) tsSum {
 				if g == nil || !a.hasEvents(g, map[*ssa.Function]bool{}) {
 					continue
 				}
-				var nst uint8
-				for _, bit := range []uint8{tsA, tsD} {
-					if st&bit == 0 {
+				var nst tsSet
+				for si := 0; si < a.nStates(); si++ {
+					if st&(1<<uint(si)) == 0 {
 						continue
 					}
-					sub := a.summary(g, bit)
+					sub := a.summary(g, si)
 					nst |= sub.out
 					if sub.err != nil {
 						ch := append([]string{fmt.Sprintf("%s calls %s at %s", core.FuncName(fn), core.FuncName(g), a.p.Pos(x.Pos()))}, sub.err.chain...)
@@ -326,24 +420,21 @@ func (a *tsAnalysis) summary(fn *ssa.Function, in uint8) tsSum {
 			sst := st
 			e := core.Edge{From: b, To: succ}
 			if consume[e] {
-				sst = tsD
+				sst = a.mapTS(sst, toD)
 			}
 			if iff != nil && len(b.Succs) == 2 && b.Succs[0] != b.Succs[1] {
 				if stopCond != nil && iff.Cond == stopCond {
-					// Succs[0] is taken when cond is true
-					var stopTrue bool
-					for pol := range stopEdge {
-						stopTrue = pol
-					}
 					// edge k==0 ⇔ cond true ⇔ Stop()==stopTrue ; k==1 ⇔ Stop()==!stopTrue
 					if (k == 0) == stopTrue {
-						sst = tsD
+						sst = a.mapTS(sst, toD)
 					}
 				} else if pol := a.nilTest(iff.Cond); pol != 0 {
 					// the world with a timer: prune the "no timer" edge
 					if (pol > 0) != (k == 0) {
 						continue
 					}
+				} else if fk, pol := a.flagTest(iff.Cond); fk >= 0 {
+					sst = a.filterFlag(sst, fk, (pol > 0) == (k == 0))
 				}
 			}
 			if sst == 0 {
@@ -393,7 +484,15 @@ func c11_8(c *core.Ctx, p *core.Prog) {
 		return
 	}
 	for _, ft := range fields {
-		a := &tsAnalysis{p: p, fld: ft.fld, pkg: ft.pkg, sums: map[*ssa.Function]*[3]tsSum{}, events: map[*ssa.Function]bool{}, nilFn: map[*ssa.Function]int{}}
+		a := &tsAnalysis{p: p, fld: ft.fld, pkg: ft.pkg, sums: map[*ssa.Function][]tsSum{}, events: map[*ssa.Function]bool{}, nilFn: map[*ssa.Function]int{}}
+		// boolean fields of the struct that holds the timer, tracked as part of the state (at most 4)
+		if owner := timerOwner(ft.fld, fns); owner != nil {
+			for k := 0; k < owner.NumFields() && len(a.flags) < 4; k++ {
+				if b, ok := owner.Field(k).Type().Underlying().(*types.Basic); ok && b.Kind() == types.Bool {
+					a.flags = append(a.flags, owner.Field(k))
+				}
+			}
+		}
 		// roots: package functions with timer events that no other package function calls
 		called := map[*ssa.Function]bool{}
 		var pkgFns []*ssa.Function
@@ -421,7 +520,15 @@ func c11_8(c *core.Ctx, p *core.Prog) {
 			// a root must see a receive or a Stop somewhere below it, otherwise there is nothing to decide
 			nRoots++
 			key := fmt.Sprintf("timer|field=%s|root=%s", ft.fld.Name(), core.FuncName(f))
-			sum := a.summary(f, tsA)
+			// entry: timer state A; flags unknown (all valuations are tried, the first error is reported)
+			var sum tsSum
+			for v := 0; v < a.nStates(); v += 2 {
+				s1 := a.summary(f, v)
+				sum.out |= s1.out
+				if sum.err == nil {
+					sum.err = s1.err
+				}
+			}
 			pos := p.Pos(f.Pos())
 			if a.recur {
 				c.Undecided(key, pos, core.FuncName(f), "recursion among the functions that touch the timer: typestate summaries not computed")
@@ -441,6 +548,25 @@ func c11_8(c *core.Ctx, p *core.Prog) {
 			c.Undecided("timer|field="+ft.fld.Name(), "?", "", "no root function for the timer typestate")
 		}
 	}
+}
+
+// timerOwner: the struct type that declares the timer field.
+func timerOwner(fld *types.Var, fns []*ssa.Function) *types.Struct {
+	var res *types.Struct
+	for _, fn := range fns {
+		for _, f := range core.WithClosures(fn) {
+			core.EachInstr(f, func(i ssa.Instruction) {
+				fa, ok := i.(*ssa.FieldAddr)
+				if !ok || res != nil || core.FieldVar(fa) != fld {
+					return
+				}
+				if pt, ok := fa.X.Type().Underlying().(*types.Pointer); ok {
+					res, _ = pt.Elem().Underlying().(*types.Struct)
+				}
+			})
+		}
+	}
+	return res
 }
 
 func init() {
@@ -522,6 +648,33 @@ func (s *S) BadLoopParked() {
 			if s.n > 0 {
 				s.n = 0
 				s.reset()
+			}
+		}
+	}
+}
+
+// GoodLoopParkedFlag parks the timer, remembers it in a field and skips the drain while parked.
+func (s *S) GoodLoopParkedFlag() {
+	s.parked = false
+	s.timer = time.NewTimer(s.d)
+	for {
+		select {
+		case v := <-s.in:
+			s.n += v
+			if s.n > 10 {
+				s.n = 0
+				if !s.parked {
+					s.stop()
+				}
+				s.reset()
+				s.parked = false
+			}
+		case <-s.timer.C:
+			if s.n > 0 {
+				s.n = 0
+				s.reset()
+			} else {
+				s.parked = true
 			}
 		}
 	}
